@@ -725,6 +725,23 @@ def call_module(it, fv, args, kwargs):
                     return Cx(npm.np_sum(ctx, inner, lambda k: pr(k).re, 'es_re'), npm.np_sum(ctx, inner, lambda k: pr(k).im, 'es_im'))
                 return npm.np_sum(ctx, inner, lambda k: scalar_arith('*', ga(r, k), gb(r, k), fp), 'es')
             return npm.new_arr(ctx, (a.shape[0],), el, 'complex' if cplx else 'real', 'einsum')
+        if sig == 'mi,i->m' and len(args) == 3 and isinstance(args[1], SArr) and args[1].ndim == 2 and isinstance(args[2], SArr) and args[2].ndim == 1:
+            # matrix-vector product as finite sums
+            a, b = args[1], args[2]
+            npm.shape_eq(ctx, (a.shape[1],), b.shape, 'einsum operand shapes')
+            inner = a.shape[1]
+            ga, gb = npm.fz(a), npm.fz(b)
+            if a.dtype == 'complex' or b.dtype == 'complex':
+                raise Unsupported('complex einsum mi,i->m')
+
+            def elmv(r):
+                if isinstance(inner, int):
+                    acc = scalar_arith('*', ga(r, 0), gb(0), fp)
+                    for k in range(1, inner):
+                        acc = scalar_arith('+', acc, scalar_arith('*', ga(r, k), gb(k), fp), fp)
+                    return acc
+                return npm.np_sum(ctx, inner, lambda k: scalar_arith('*', ga(r, k), gb(k), fp), 'es')
+            return npm.new_arr(ctx, (a.shape[0],), elmv, 'real', 'einsum')
         raise Unsupported('einsum signature %r' % (sig,))
     if name in ('any', 'all'):
         if isinstance(a0, SArr):
@@ -750,6 +767,23 @@ def call_module(it, fv, args, kwargs):
                     r = zite(tz(i) == j, vals[j], r, fp)
                 return r
             return npm.new_arr(ctx, (len(vals),), el, dt, 'lit')
+        if isinstance(a0, (list, tuple)) and a0 and all(isinstance(r_, (list, tuple)) and len(r_) == len(a0[0]) and len(r_) > 0
+                                                       and all(_isnum(x) or isinstance(x, bool) for x in r_) for r_ in a0):
+            # rectangular 2-d literal
+            rows = [list(r_) for r_ in a0]
+            R, C = len(rows), len(rows[0])
+            flat = [x for r_ in rows for x in r_]
+            dt = 'int' if all(isinstance(x, int) or is_int_term(x) for x in flat) else 'real'
+
+            def el2(i, j):
+                if isinstance(i, int) and isinstance(j, int):
+                    return rows[i][j]
+                pos = tz(i) * C + tz(j)
+                r = flat[-1]
+                for q in range(len(flat) - 2, -1, -1):
+                    r = zite(pos == q, flat[q], r, fp)
+                return r
+            return npm.new_arr(ctx, (R, C), el2, dt, 'lit2d')
         if _isnum(a0):
             # 0-d arrays are modelled as length-1 1-d arrays (same results after ravel/mask ops)
             return npm.new_arr(ctx, (1,), lambda i: a0, 'real', 'lit')
